@@ -570,7 +570,9 @@ def monitor_history(ops, obs):
             if s["cnt"].isdigit() and int(s["cnt"]) != owners(post, s["blk"]):
                 # after a panicking call an inaccurate count is also C07's "every surviving handle is
                 # still valid with an accurate count"
-                fails.append((i, ["C04", "C07"] if st.startswith("panic") else ["C04"],
+                # ... and for the raw-pointer-shaped handles (OffsetArc: every method feeds the pointer back through
+                # from_raw_offset) it is C11's "recovers a handle to the same allocation with the same ... count"
+                fails.append((i, (["C04", "C07"] if st.startswith("panic") else ["C04"]) + (["C11"] if s["kind"] in ("offset", "raw", "rawOffset") else []),
                               "slot s%d reports count %s but %d owning handle(s) refer to b%d%s" % (
                                   k, s["cnt"], owners(post, s["blk"]), s["blk"], " (after a panic in user code)" if st.startswith("panic") else "")))
         for m in re.finditer(r"cnt=([\d|]+);", o["out"]):
